@@ -6,7 +6,7 @@ richer pool of free-form texts.  Every recorded trace is judged by spec/ServerTr
 `diag = fresh` for every module after every edit (the property's own oracle, evaluated by TLC on the
 logged observations); strict mode (each step is the Server.tla action and yields the logged projection:
 map domains, recheck set, abstracted diagnostics) only reports drift."""
-import json, os, time
+import json, os, re, time
 from vlib import *
 
 PID = "C10"
@@ -44,6 +44,22 @@ def _sorted_member_list(msg):
     return head + MEMBERS_HEAD + "\n".join(other[:1] + names + other[1:])
 
 
+BINDINGS_RE = re.compile(r"(Expected bindings: \[)([^\]]*)(\], actual bindings: \[)([^\]]*)(\]\.)")
+
+
+def _sorted_binding_lists(msg):
+    """the `Or-pattern alternatives must bind the same variables` diagnostic with both of its name lists sorted by
+    spelling (the checker lists them in BTreeSet<PStr> order, i.e. interning order for names longer than 15 bytes)"""
+    def fix(m):
+        srt = lambda x: ", ".join(sorted(n.strip() for n in x.split(",")))
+        return m.group(1) + srt(m.group(2)) + m.group(3) + srt(m.group(4)) + m.group(5)
+    return BINDINGS_RE.sub(fix, msg)
+
+
+def _canon_name_lists(msg):
+    return _sorted_binding_lists(_sorted_member_list(msg))
+
+
 def excuse_interning_order(pid, trace, stats):
     """Open finding `member-list-in-interning-order`: names longer than 15 bytes are ordered by when they were first
     interned, so a long-running server and a fresh one list the missing members differently.  Where the held and the
@@ -53,7 +69,7 @@ def excuse_interning_order(pid, trace, stats):
     if not kf:
         return
     rows = read_ndjson(trace)
-    n = 0
+    n = nb = 0
     for r in rows:
         post = r.get("post") or {}
         d, f = post.get("diag"), post.get("fresh")
@@ -64,9 +80,19 @@ def excuse_interning_order(pid, trace, stats):
         if dc == fc:
             post["diag"], post["fresh"] = dc, fc
             n += 1
-    if n:
+            continue
+        # the same root cause (PStr order = interning order) shows in a second list of names: the bindings listed by
+        # `Or-pattern alternatives must bind the same variables` (checker: BTreeSet<PStr>).  Same narrow rule: only
+        # where the order inside those lists is the ONLY difference are both sides rewritten to the sorted form.
+        dc = {m: sorted(_canon_name_lists(x) for x in v) for m, v in d.items()}
+        fc = {m: sorted(_canon_name_lists(x) for x in v) for m, v in f.items()}
+        if dc == fc:
+            post["diag"], post["fresh"] = dc, fc
+            nb += 1
+    if n or nb:
         write_ndjson(trace, rows)
         stats["excused_member_list_order"] = stats.get("excused_member_list_order", 0) + n
+        stats["excused_binding_list_order"] = stats.get("excused_binding_list_order", 0) + nb
 
 
 def judge(pid, cfg, trace, tag, stats, source):
@@ -81,6 +107,10 @@ def judge(pid, cfg, trace, tag, stats, source):
     stats["abstract_events"] += sum(1 for r in rows if r.get("abstract"))
     stats["requests"] += sum(r.get("requests", 0) for r in rows)
     stats["edit_panics"] += sum(1 for r in rows if "panic" in r)
+    stats["resends"] = stats.get("resends", 0) + sum(1 for r in rows if r.get("same"))
+    stats["resends_syn"] = stats.get("resends_syn", 0) + sum(1 for r in rows if r.get("same_syn"))
+    stats["cross_module_locations"] = stats.get("cross_module_locations", 0) + sum(
+        1 for r in rows if "is incompatible with `interface type`" in json.dumps((r.get("post") or {}).get("fresh", {})))
     stats["tlc_states"] += v.generated + s.generated
     if v.violated:
         l = (v.last_l() or 2) - 1
@@ -161,6 +191,10 @@ def run_common(pid, cfg, tier, long_ids, queries, slices, model_invariants, n_th
         "trace_states_checked_by_tlc": stats["tlc_states"],
         "model_drift_traces": stats["drift"],
         "events_excused_by_member_list_order": stats.get("excused_member_list_order", 0),
+        "events_excused_by_binding_list_order": stats.get("excused_binding_list_order", 0),
+        "updates_resending_an_unchanged_text": stats.get("resends", 0),
+        "of_those_for_a_module_holding_a_syntax_error": stats.get("resends_syn", 0),
+        "events_with_a_class_as_super_type_diagnostic": stats.get("cross_module_locations", 0),
         "exhaustive": False,
     }
     return coverage, fails, time.time() - t0
@@ -168,7 +202,7 @@ def run_common(pid, cfg, tier, long_ids, queries, slices, model_invariants, n_th
 
 ASSUMPTIONS = [
     "hook H2 reports the recheck set and map domains faithfully",
-    "contents are drawn from the abstract pool of Server.tla and 15 free-form templates over 4 module names",
+    "contents are drawn from the abstract pool of Server.tla and 24 free-form templates (well-typed, ill-typed-but-parseable, unparseable) over 4 module names, three scripted dependency-chain prefixes, and updates re-sending a module's current text",
     "a freshly started ServerState on the same texts is the from-scratch analysis the property refers to",
     "TLC 1.8.0 and the CommunityModules Json/IOUtils overrides are correct",
 ]
@@ -180,7 +214,10 @@ def run(tier):
     kf = next((k for k in known_findings(PID) if k.get("region") == "member-list-in-interning-order"), None)
     if kf:
         n = coverage.get("events_excused_by_member_list_order", 0)
-        report_known(PID, f"{kf['what']} [{n} events of this run differ only in that order]")
+        nb = coverage.get("events_excused_by_binding_list_order", 0)
+        report_known(PID, f"{kf['what']} [{n} events of this run differ only in that order; {nb} more differ only in the "
+                          f"order of the names listed by `Or-pattern alternatives must bind the same variables` "
+                          f"(BTreeSet<PStr> in the checker: the same interning order)]")
     write_evidence(PID, tier, "model_checking", coverage, ASSUMPTIONS, wall, fails)
     return 1 if fails else 0
 
